@@ -165,13 +165,16 @@ def _decorate(rng, n, policy):
                     x["EDIF.identifier"] = re.sub(r"[^A-Za-z0-9_]", "_", x.name)
 
 
-def roots_of(rng, n):
+def roots_of(rng, n, must=()):
     defs = [d for l in n.libraries for d in l.definitions]
     out = [("Netlist", n)]
     out += [("Library", l) for l in rng.sample(list(n.libraries), min(2, len(n.libraries)))]
     some = rng.sample(defs, min(3, len(defs)))
     if n.top_instance.reference not in some:
         some.append(n.top_instance.reference)
+    for d in must:
+        if d is not None and d not in some:
+            some.append(d)
     for d in some:
         out.append(("Definition", d))
         if len(d.children):
@@ -298,7 +301,9 @@ class Checker:
                 return self.fail("R0-duplicates:%s:%s:%s" % (fname, root_label, kind), "%s pattern %r (%s) returns an element twice" % (tag, p, kind))
             gi, ei = set(map(id, got)), set(map(id, exp))
             if may:
-                ok = (ei - may) <= gi <= (ei | may)
+                # elements equal to the pattern only up to letter case MAY be returned (documented fast-lookup behaviour
+                # under the EDIF policy); every element that matches exactly MUST be
+                ok = ei <= gi <= (ei | may)
             else:
                 ok = gi == ei
             if not ok:
@@ -365,11 +370,17 @@ def run_case(ctx, i, rng):
     try:
         n = gen_ir.generate(rng, profile="edif" if i % 3 else "any", style="mixed", ndefs=rng.randint(3, 7), share=0.5,
                             max_children=4, outside=True)
+        graft = None
+        if i % 3 == 1:
+            # part of the netlist was built stand-alone under the other naming policy and then added (policy re-applied)
+            graft = gen_ir.graft_foreign_policy_definition(rng, n, policy)
+            if graft is not None:
+                ctx.count("netlists_with_a_definition_grafted_from_the_other_policy")
         decorate(rng, n, policy)
         ctx.count("refused_adds_in_history", decorate.refused)
         st = gen_ir.shape_stats(n)
         ck = Checker(ctx, rng, policy, st)
-        roots = roots_of(rng, n)
+        roots = roots_of(rng, n, must=[graft])
         for fname, (f, has_key, sels, has_rec) in NONH.items():
             for label, root in roots:
                 for sel in sels:
@@ -418,6 +429,36 @@ def run_case(ctx, i, rng):
                         ck.run(fname, f, label, root, opts, None, True)
         if ck.failed or ck.keys:
             return
+        # R5: adding a root never removes results - the hierarchical queries over [netlist, reference-of-a-child] (overlapping
+        #     roots, the child's sub-tree is reached twice) still find, by exact hierarchical name, everything the netlist alone gives
+        tops = list(sdn.get_hinstances(n, recursive=False))
+        if len(tops) >= 2:
+            for fname, (f, sels) in HIER.items():
+                allrefs = list(f(n, recursive=True))
+                if not allrefs:
+                    continue
+                for hchild in (tops[-1], tops[len(tops) // 2]):
+                    for h0 in rng.sample(allrefs, min(len(allrefs), 6)):
+                        pat = h0.name
+                        if not pat or any(ch in pat for ch in "*?["):
+                            continue
+                        if pat == hchild.name or pat.startswith(hchild.name + "/"):
+                            # inside the sub-tree that both roots reach the name an element answers to depends on which root
+                            # reaches it first (relative vs absolute name): not specified, not judged (DESIGN 7)
+                            ctx.count("R5_skipped_inside_doubly_reached_subtree")
+                            continue
+                        try:
+                            alone = set(map(id, f(n, pat, recursive=True)))
+                            both = set(map(id, f([n, hchild], pat, recursive=True)))
+                        except Exception as ex:  # noqa: BLE001
+                            ctx.count("query_raised:%s:R5:%s" % (fname, type(ex).__name__))
+                            continue
+                        ctx.count("relations_R5")
+                        if not alone <= both:
+                            ctx.violation("R5:%s:overlapping-roots-lose-results" % fname,
+                                          "%s([netlist, reference of child %r], %r, recursive=True) misses %d of the %d references that the netlist alone gives | %s" % (
+                                              fname, hchild.name, pat, len(alone - both), len(alone), st))
+                            return
         ctx.fingerprint((st, policy, ck.rel), ck.nonempty >= 300)
         if i < 2:
             ctx.sample({"policy": policy, "shape": st, "relation_instances": ck.rel, "with_nonempty_expected": ck.nonempty,
